@@ -265,6 +265,55 @@ var scenarios = map[string]func(t *testing.T, rep *Report, root string){
 		w.quiet()
 		w.S.StopAll()
 	},
+	// S14: a snapshot of 32 KiB or more whose last reply is lost: the follower has it, answers
+	// "nothing new" with BytesWritten 0, and the leader alternates between offset 0 and the end
+	// of the file for ever; the follower never receives another entry
+	"S14-snapshot-retransmission-never-ends": func(t *testing.T, rep *Report, root string) {
+		w := newWorld(t, rep, "S14-snapshot-retransmission-never-ends", root, SimOpts{SnapEvery: 5, PadBytes: 40000}, []uint64{1, 2, 3})
+		L := w.waitLeader(3 * time.Second)
+		F := w.others(L)[0]
+		w.submit("rep", L, 0, false)
+		w.auto(300*time.Millisecond, nil, nil)
+		// F is cut off while the leader writes, snapshots and compacts
+		w.S.Sever(L, F)
+		w.S.Sever(w.others(L)[1], F)
+		for i := 0; i < 9; i++ {
+			w.submit("rep", L, 0, false)
+			w.auto(100*time.Millisecond, nil, nil)
+		}
+		w.auto(500*time.Millisecond, nil, nil)
+		w.S.HealAll()
+		// the snapshot reaches F completely; the reply to the request that completes it is lost
+		lost := false
+		w.auto(3*time.Second, func(c *Call) bool {
+			if !lost && c.Kind == "IS" && c.To == F && c.IS.Done {
+				sleepToResidue(500)
+				w.S.Deliver(c)
+				w.note("deliver, reply lost: %s -> %s", c, respString(c))
+				if !c.HandlerReturned() {
+					w.S.Blocked = append(w.S.Blocked, c)
+					for i := 0; i < 200 && !c.HandlerReturned(); i++ {
+						time.Sleep(time.Millisecond)
+						synctest.Wait()
+					}
+				}
+				if vs := w.S.Nodes[F].R.VerifGetState(); vs.LastIncludedIndex >= c.IS.LastIncludedIndex {
+					lost = true // installed by this very request: its reply is lost
+				} else if c.HandlerReturned() {
+					w.S.Reply(c)
+				}
+				return false // Fail(c): the caller sees a transport error
+			}
+			return true
+		}, func() bool { return lost })
+		w.note("--- from here on nothing is lost (installed at F: %v) ---", lost)
+		w.quiet()
+		if os.Getenv("VERIF_DEBUG") != "" {
+			fmt.Println(strings.Join(w.Trace, "\n"))
+			fmt.Println(w.S.StatusLine(), w.appliedSummary())
+		}
+		w.S.StopAll()
+	},
 	// S3: two removals back to back: the second is built from the un-updated configuration
 	"S3-lost-removal": func(t *testing.T, rep *Report, root string) {
 		w := newWorld(t, rep, "S3-lost-removal", root, SimOpts{}, []uint64{1, 2, 3, 4, 5})
